@@ -106,7 +106,7 @@ func parseObsWith(nt col.NotationLike, src string) (J, any) {
 	var val any
 	var msg string
 	before := scannerGoroutines()
-	cr := guarded(2*time.Second, func() {
+	cr := guarded(5*time.Second, func() {
 		defer func() {
 			if r := recover(); r != nil {
 				msg = fmt.Sprint(r)
